@@ -246,12 +246,36 @@ def check_delegate(res, facts):
         rule.bad(key, "delegated arms are %s (is_qr arm, divides by NONRESIDUE, root slot); expected residue arm -> c0 without division, other arm -> c1 with division" % sorted(map(str, verdict)), fn.loc)
 
 
+def check_inplace(res, facts):
+    """sqrt_in_place (trait default and every override in ark-ff) has no algorithm of its own: whatever it returns is
+    `sqrt(self)` stored back.  A shortcut of its own (e.g. `self.c0.sqrt_in_place()` when c1 = 0) makes the in-place entry
+    point disagree with `sqrt` -- in a quadratic extension a base-field non-residue does have a root, in the other
+    coordinate."""
+    from rules.c07 import E, show, A, C
+    rule = res.rule("R-INPLACE", "sqrt_in_place is sqrt() stored back, on every path (no algorithm of its own)", 2)
+    for f in facts.fns(unit="ws", crate="ark_ff"):
+        if f.kind == "Closure" or f.name != "sqrt_in_place" or "::tests::" in f.id:
+            continue
+        key = "ark_ff|%s" % f.id[-90:]
+        switches = [b for b in f.bbs if b["t"]["k"] == "switch"]
+        names = [t["f"].get("name") for _, t in f.calls() if t["f"].get("name") not in DF.TRANSPARENT]
+        sq = [t for _, t in f.calls() if t["f"].get("name") == "sqrt"]
+        ret = E(f, {"c": 0})
+        ok_shape = len(sq) == 1 and E(f, sq[0]["args"][0]) == A(1) and not switches and sorted(names) == ["map", "sqrt"] \
+            and isinstance(ret, tuple) and ret[:2] == ("call", "map") and ret[2][0] == C("sqrt", A(1))
+        if ok_shape:
+            rule.ok(key, "sqrt(*self).map(store back)", f.loc)
+        else:
+            rule.bad(key, "sqrt_in_place does more than store sqrt(self) back (calls %s, %d branch(es), returns %s): a path of its own can report no root (or a different one) where sqrt() finds one" % (sorted(set(names)), len(switches), show(ret)[:80]), f.loc)
+
+
 def run(ctx, res):
     facts = ctx.facts(["ws"])
     res.analysed = facts.stats()
     check_verified(res, facts)
     check_legendre(res, facts)
     check_delegate(res, facts)
+    check_inplace(res, facts)
     return {
         "level": "other",
         "explanation": "Control-dependence and dataflow rules over the MIR of the square-root and Legendre-symbol code in ark-ff: every computed root is returned only under root^2 == input, zero has the explicit arm, the Legendre classification is enumerated over its three outcomes, extension fields go through the norm, and the c1 = 0 arm of the quadratic-extension root places sqrt(c0) / sqrt(c0/beta) in the right coordinate. Completeness (a root is reported whenever one exists) is a property of the Tonelli-Shanks loop on run-time values and is NOT decided; the precomputed constants are decided under C16.",
